@@ -95,6 +95,7 @@ def parse_kani_log(text):
             # the same cover! may be instantiated several times (duplicated MIR blocks): any SATISFIED instance counts
             if r["covers"].get(desc) != "SATISFIED":
                 r["covers"][desc] = status
+                r.setdefault("cover_names", {})[desc] = name
             continue
         r["checks_total"] += 1
         if status == "FAILURE":
@@ -195,6 +196,11 @@ def gen_registry(crate):
             entries.append((m.group(1), m.group(2)))
     gdir = os.path.join(src, "gen")
     os.makedirs(gdir, exist_ok=True)
+    # generated case files (src/gen/h_*.rs, include!d into a harness module) register the same way
+    for fn in sorted(os.listdir(gdir)):
+        if fn.startswith("h_") and fn.endswith(".rs"):
+            for m in re.finditer(r"^// @harness (\w+) (\S+)$", open(os.path.join(gdir, fn)).read(), re.M):
+                entries.append((m.group(1), m.group(2)))
     out = ["// generated by lib/runner.py gen_registry(); do not edit",
            "pub fn lookup(name: &str) -> Option<fn()> {", "    match name {"]
     for n, p in entries:
@@ -222,17 +228,83 @@ class Harness:
         self.witnesses = witnesses   # also ask the solver for concrete inputs of satisfied covers (costly on big harnesses)
 
 
+CBMC_FLAGS = ["--no-malloc-may-fail", "--no-undefined-shift-check", "--no-signed-overflow-check", "--nan-check",
+              "--no-self-loops-to-assumptions", "--no-pointer-primitive-check", "--object-bits", "16",
+              "--sat-solver", "cadical", "--slice-formula"]
+
+
+def find_goto_binary(h, slot):
+    """The goto binary Kani produced for harness h in this slot's target dir, and its unwind value."""
+    td = os.path.join(WORK, "td", h.crate, str(slot))
+    best = None
+    for root, _dirs, files in os.walk(os.path.join(td, "kani")):
+        for fn in files:
+            if fn.endswith(".out") and not fn.endswith(".symtab.out") and re.search(r"\d+" + re.escape(h.name) + r"\.out$", fn):
+                pth = os.path.join(root, fn)
+                if best is None or os.path.getmtime(pth) > os.path.getmtime(best):
+                    best = pth
+    if not best:
+        return None, None
+    unwind = None
+    try:
+        for fn in os.listdir(os.path.dirname(best)):
+            if fn.endswith(".kani-metadata.json"):
+                md = json.load(open(os.path.join(os.path.dirname(best), fn)))
+                for ph in md.get("proof_harnesses", []):
+                    if ph.get("pretty_name", "").split("::")[-1] == h.name:
+                        unwind = ph.get("attributes", {}).get("unwind_value")
+    except Exception:
+        pass
+    return best, unwind
+
+
+TRACE_RE = re.compile(r"^\s*goto_symex\$\$return_value\$\$\S*any_raw\S*=.*\(([01 ]+)\)\s*$", re.M)
+
+
+def extract_values(h, slot, logdir, prop_name, tag):
+    """Ask CBMC directly for a trace of one property (failed check or satisfied cover) of the goto binary
+    Kani built, and read the kani::any() values off it in call order.  (Kani's own concrete-playback mode
+    builds JSON traces without slicing and did not finish within 30 min on these harnesses; this takes seconds.)"""
+    gb, unwind = find_goto_binary(h, slot)
+    if not gb:
+        return None, "goto binary not found"
+    cmd = ["cbmc"] + CBMC_FLAGS + (["--unwind", str(unwind)] if unwind else []) + ["--trace", "--property", prop_name, gb]
+    lf = os.path.join(logdir, f"{h.name}.trace.{tag}.log")
+    rc, why, _peak = run_limited(cmd, os.path.dirname(gb), max(600, h.timeout_s), h.mem_gb * 2, lf)
+    if why:
+        return None, f"trace extraction {why}"
+    text = open(lf, errors="replace").read()
+    if "VERIFICATION FAILED" not in text:
+        return None, "cbmc did not reproduce the failure for " + prop_name
+    vals = []
+    for m in TRACE_RE.finditer(text):
+        bits = m.group(1).replace(" ", "")
+        by = [int(bits[i:i + 8], 2) for i in range(0, len(bits), 8)]
+        by.reverse()   # printed most-significant byte first; vectors are little-endian
+        vals.append(by)
+    return vals, None
+
+
 def run_kani(h, slot, logdir, playback=None):
-    if playback is None:
-        playback = h.witnesses
-    r = _run_kani(h, slot, logdir, playback)
-    if r["status"] == "failed" and not playback:
-        # second run only to extract the counterexample's concrete input vectors
-        r2 = _run_kani(h, slot, logdir, True, suffix=".playback", scale=2)
-        r["playback"] = r2.get("playback")
-        r["playback_check"] = r2.get("playback_check")
-        r["playback_log"] = r2.get("log")
-        r["wall_s"] = round(r["wall_s"] + r2["wall_s"], 1)
+    r = _run_kani(h, slot, logdir, False)
+    if r["status"] == "failed":
+        real = [f for f in r["failed"] if "unwinding assertion" not in f["description"]]
+        # prefer the harness's own assertion (a message starting with the property id) over incidental checks
+        real.sort(key=lambda f: 0 if re.match(r'^"?C\d\d', f["description"]) else 1)
+        t0 = time.time()
+        vals, err = extract_values(h, slot, logdir, real[0]["check"], "cex")
+        r["playback"] = vals
+        r["playback_check"] = real[0]["description"]
+        r["playback_error"] = err
+        r["wall_s"] = round(r["wall_s"] + time.time() - t0, 1)
+    elif r["status"] == "pass" and h.witnesses:
+        r["cover_samples"] = {}
+        for i, (desc, st) in enumerate(list(r["covers"].items())[:3]):
+            nm = r.get("cover_names", {}).get(desc)
+            if st == "SATISFIED" and nm:
+                vals, err = extract_values(h, slot, logdir, nm, f"cover{i}")
+                if vals:
+                    r["cover_samples"][desc] = vals
     return r
 
 
@@ -264,6 +336,9 @@ def _run_kani(h, slot, logdir, playback, suffix="", scale=1):
         r["reason"] = "no verdict (build error, unsupported construct or CBMC error); see log"
     elif r["verdict"] == "SUCCESSFUL":
         bad = [d for d, s in r["covers"].items() if s != "SATISFIED"]
+        if isinstance(h.covers_required, (list, tuple, set)):
+            # only the named witnesses are required (others are meaningless in this case of a split)
+            bad = [d for d in h.covers_required if r["covers"].get(d) != "SATISFIED"]
         if bad and h.covers_required:
             r["status"] = "inconclusive"
             r["reason"] = "vacuity: reachability witness not satisfied: " + "; ".join(bad)
